@@ -12,7 +12,8 @@ package pilosa
 //  B   a real single-node Server/API with a time field per configuration (quantum x grid x
 //      noStandardView); a bit at every unit of a grid; every aligned range over the grid's cut
 //      points is queried with Row(f=r,from,to) and Rows(f,from,to) through API.Query and compared
-//      with "timestamps in [s,e)".
+//      with "timestamps in [s,e)". Fields with a standard view also hold bits WITHOUT a timestamp (a
+//      column of row 1, a row of its own), which no range may return.
 //
 // The oracle is plain calendar arithmetic (time.Date on UTC).
 
@@ -527,6 +528,11 @@ func c18RunQueries(c *vx.Check) {
 		var sb strings.Builder
 		for _, b := range cfg.bits {
 			fmt.Fprintf(&sb, "Set(%d, f=%d, %s)\n", b.col, b.row, c18TS(b.t))
+		}
+		if !cfg.nsv {
+			// bits WITHOUT a timestamp live in the standard view only: a column of row 1 and a row of its
+			// own (7). No time range may ever return them, however much of the data it spans.
+			sb.WriteString("Set(999998, f=1)\nSet(999999, f=7)\n")
 		}
 		if _, err := node.api.Query(ctx, &QueryRequest{Index: "i", Query: sb.String()}); err != nil {
 			c.Violate("Set with timestamp error q="+string(cfg.q), cfg.label, err.Error(), "ok")
